@@ -65,6 +65,10 @@ pub struct Sc {
     pub faults: Vec<Fault>,
     /// extra lookup paths for find_entry (pure lookups, no file access)
     pub lookups: Vec<String>,
+    /// via_api only: verify with the Distinfo that was built by insert() itself
+    /// instead of a re-parsed copy of its as_bytes()
+    #[serde(default)]
+    pub direct: bool,
 }
 
 pub struct C12;
@@ -637,6 +641,7 @@ impl Property for C12 {
             via_api: rng.chance(1, 2),
             faults,
             lookups,
+            direct: rng.chance(1, 2),
         }
     }
 
@@ -671,6 +676,38 @@ impl Property for C12 {
         let mut distinfo = if sc.via_api {
             ctx.probe("record-built-through-api");
             let mut di = Distinfo::new();
+            // history: lookups interleaved with inserts must always see exactly
+            // the entries inserted so far (shortest recorded trailing sub-path)
+            let lookup_all = |di: &Distinfo, so_far: &[String], ctx: &mut Ctx| -> Outcome {
+                for f in &sc.files {
+                    let ps = sd.path(&rel(&f.name)).to_string_lossy().to_string();
+                    let want = model_find(so_far, &ps);
+                    ctx.step("lookup-during-build", so_far.len() as u64, 0);
+                    match (want, di.find_entry(&ps)) {
+                        (Some(w), Ok(e)) => ensure!(
+                            e.filename == Path::new(w),
+                            "lookup-resolved-wrong-entry",
+                            "after {} inserts find_entry({}) resolved to {:?}, the shortest recorded trailing sub-path is {:?}",
+                            so_far.len(),
+                            f.name,
+                            e.filename,
+                            w
+                        ),
+                        (None, Err(DistinfoError::NotFound)) => {}
+                        (w, got) => fail!(
+                            "lookup-resolved-wrong-entry",
+                            "after {} inserts find_entry({}) gave {:?}, the model says {:?}",
+                            so_far.len(),
+                            f.name,
+                            got.map(|e| e.filename.clone()).map_err(|e| e.to_string()),
+                            w
+                        ),
+                    }
+                }
+                Ok(())
+            };
+            let mut so_far: Vec<String> = Vec::new();
+            lookup_all(&di, &so_far, ctx)?;
             for (f, r) in sc.files.iter().zip(recs.iter()) {
                 let p = sd.path(&rel(&f.name));
                 let mut cks = Vec::new();
@@ -718,8 +755,16 @@ impl Property for C12 {
                     e.filetype
                 );
                 di.insert(e);
+                so_far.push(f.name.clone());
+                ctx.probe("lookup-interleaved-with-insert");
+                lookup_all(&di, &so_far, ctx)?;
             }
-            Distinfo::from_bytes(&di.as_bytes())
+            if sc.direct {
+                ctx.probe("verified-with-the-inserted-distinfo-itself");
+                di
+            } else {
+                Distinfo::from_bytes(&di.as_bytes())
+            }
         } else {
             Distinfo::from_bytes(&render_distinfo(&sc.files, &recs))
         };
@@ -823,6 +868,33 @@ impl Property for C12 {
                             x,
                             y
                         );
+                    }
+                    // the same bytes under a name of the *other* kind (a download
+                    // temp file, a mkpatches backup): an entry hashes the way its
+                    // own kind says, whatever the checked file is called
+                    if round == 0 {
+                        if let Some(c) = on_disk {
+                            let alias = if model_is_patch(rname) { "alias/zz-download.tmp" } else { "alias/patch-zzalias" };
+                            sd.write(alias, c);
+                            let ap = sd.path(alias);
+                            for (a, h) in &rec.checksums {
+                                let want_ok = model_digest(rname, *a, c) == *h;
+                                let got = e.verify_checksum(&ap, ALGS[*a]);
+                                ctx.probe("entry-verify-under-alias-name");
+                                ensure!(
+                                    got.is_ok() == want_ok,
+                                    "entry-hashes-by-file-name-not-entry-kind",
+                                    "{} ({} entry) checked against the same bytes stored as {}: {} gives {} but the entry's kind says {}",
+                                    rname,
+                                    if model_is_patch(rname) { "patch" } else { "distfile" },
+                                    alias,
+                                    ALG_NAMES[*a],
+                                    shape(&got),
+                                    if want_ok { "match" } else { "mismatch" }
+                                );
+                            }
+                            sd.remove(alias);
+                        }
                     }
                     let x: Vec<String> = e.verify_checksums(&p).iter().map(shape).collect();
                     let y: Vec<String> = distinfo.verify_checksums(&p).iter().map(shape).collect();
@@ -1227,6 +1299,9 @@ impl Property for C12 {
             "shortest-tail-among-several",
             "shortest-tail-chosen-over-own-name",
             "record-built-through-api",
+            "lookup-interleaved-with-insert",
+            "verified-with-the-inserted-distinfo-itself",
+            "entry-verify-under-alias-name",
         ]
     }
 }
